@@ -126,6 +126,26 @@ impl State {
     }
 }
 
+/// Verification hooks (feature `dryoc_verif`): build a stream state from its
+/// raw parts and read them back, so a check can start a stream at any counter
+/// value and compare the state with libsodium's.
+#[cfg(feature = "dryoc_verif")]
+impl State {
+    /// Builds a state from the derived key and the 12-byte nonce (4-byte
+    /// little-endian counter followed by the 8-byte inner nonce).
+    pub fn verif_from_parts(k: &Key, nonce: &Nonce) -> Self {
+        Self {
+            k: *k,
+            nonce: *nonce,
+        }
+    }
+
+    /// Returns the derived key and the 12-byte nonce.
+    pub fn verif_parts(&self) -> (Key, Nonce) {
+        (self.k, self.nonce)
+    }
+}
+
 /// Generates a random stream key using [crate::rng::copy_randombytes].
 pub fn crypto_secretstream_xchacha20poly1305_keygen(key: &mut Key) {
     copy_randombytes(key);
